@@ -16,6 +16,7 @@ from pathlib import Path
 V = Path(__file__).resolve().parent.parent
 prop, outdir = sys.argv[1], Path(sys.argv[2])
 keep = "--keep" in sys.argv
+prefix = next((a.split("=")[1] for a in sys.argv if a.startswith("--prefix=")), "")
 checks = [prop] + [a.split("=")[1] for a in sys.argv if a.startswith("--also=")]
 wt = Path(f"/tmp/sv-{prop.lower()}")
 subprocess.run(["git", "-C", "/repo", "worktree", "remove", "--force", str(wt)], capture_output=True)
@@ -66,7 +67,7 @@ try:
         print(k, json.dumps(r, indent=1)[:1500], flush=True)
         valid = r["demo_clean"] == 0 and r["demo_patched"] != 0 and not r["suite_missing"]
         if keep and valid:
-            dst = V / "seeded" / prop / k
+            dst = V / "seeded" / prop / (prefix + k)
             dst.mkdir(parents=True, exist_ok=True)
             for f in ("patch.diff", "demo.py", "README.md"):
                 if (outdir / k / f).exists():
